@@ -40,6 +40,7 @@ mutual
     | IF (bt bf : Instr) | IF_NONE (bn bs : Instr) | IF_LEFT (bl br : Instr) | IF_CONS (bc bn : Instr)
     | LOOP (body : Instr) | LOOP_LEFT (body : Instr) | ITER (body : Instr) | MAP (body : Instr)
     | LAMBDA (a b : Ty) (body : Instr) | EXEC | APPLY | FAILWITH
+    | PAIRN (n : Nat) | UNPAIRN (n : Nat) | GETN (n : Nat) | UPDATEN (n : Nat)
     | UNIT | PAIR | UNPAIR | CAR | CDR | SOME | NONE (t : Ty) | LEFT (t : Ty) | RIGHT (t : Ty)
     | NIL (t : Ty) | CONS | SIZE | EMPTY_MAP (k v : Ty)
     | ADD | SUB | MUL | NEG | ABS | ISNAT | INT | COMPARE | EQ | NEQ | LT | GT | LE | GE
